@@ -6,8 +6,16 @@ deletion, adjacent transposition, at every position) plus structured damage (cas
 constant, non-zero padding bits, truncation, padding, dropped/added leading '1's) is fed to every decoding
 entry point of the library.  The reference decoders (vf/ref/codec.py, addr.py, bip32.py, bip38.py, golden
 network table) decide for every mutant whether it is a valid encoding and of what.
+
+Sub-space 'unicode': the same strings (Bech32 ones also in the all-upper-case form of BIP173) damaged by
+characters OUTSIDE US-ASCII that a text transform of the standard library maps back onto the replaced
+character(s): every code point of the interpreter's Unicode database whose str.lower/upper/casefold/title/
+swapcase/capitalize, NFC/NFD/NFKC/NFKD form, "decompose and drop non-ASCII" form, decimal/digit value or
+low 7/8/16 bits is the replaced text, and every white-space / control / invisible character inserted at every
+gap.  None of them is a symbol of any of the encodings, so the specification makes every such string invalid.
 """
 import hashlib
+import unicodedata
 
 from vf.ref import addr as raddr
 from vf.ref import bip32, bip38, codec, nets, secp
@@ -24,7 +32,13 @@ RULE = ('for each base string (every distinct address version / HRP / WIF versio
         'all 256 version bytes / unknown prefixes; every mutant is given to every decoding entry point; the '
         'reference decoder classifies the mutant (valid / invalid / checksum-valid but non-standard) and the '
         'library must refuse every invalid one and return the reference payload and the identical re-encoding '
-        'for every one it accepts. A case is non-trivial when the mutant differs from its base string; '
+        'for every one it accepts. Bech32 base strings are also enumerated in their all-upper-case form. '
+        'Sub-space unicode: for every base string (Bech32: lower and upper form) and every position, the 1-3 '
+        'characters at that position are replaced by every non-ASCII code point of the Unicode database that a '
+        'standard text transform (case mapping, NFC/NFD/NFKC/NFKD, decompose-and-drop-non-ASCII, decimal/digit '
+        'value, low 7/8/16 bits) maps onto those characters in either case, and every Unicode white-space, C0 '
+        'control and a fixed list of invisible/combining characters is inserted at every gap; all of these '
+        'strings are invalid. A case is non-trivial when the mutant differs from its base string; '
         'distinct by (base string, edit kind, position).')
 ASSUMPTIONS = [
     'reference Base58Check/Bech32/BIP32/BIP38 decoders and the golden network table are validated by their '
@@ -47,12 +61,112 @@ ASSUMPTIONS = [
     'addr_to_pubkeyhash / addr_base58_to_pubkeyhash / addr_bech32_to_pubkeyhash do not interpret the version '
     'byte or HRP, so any version is accepted there',
     'multi-character random damage is not enumerated (only the fixed structured list)',
+    'the table of Unicode equivalents is computed from the unicodedata module of the running interpreter (its '
+    'version is recorded in the bounds) over all code points; the transforms are the fixed list in _U_TRANSFORMS - '
+    'the low-bits class has one representative per width (7, 8, 16 bits), not every code point with those low bits',
+    'a string with a character outside the encoding alphabet is invalid whatever a transform would make of it; '
+    'the text of the property ("accepted only if it is the canonical encoding") is read literally here',
 ]
 
 B58 = codec.B58
 B58_OUT = '0OIl '
 BECH = codec.CHARSET
 BECH_SYMS = BECH + ''.join(sorted(set(BECH.upper()) - set(BECH))) + 'bio1BIO '
+
+
+# ----------------------------------------------------------------------------- Unicode equivalents of ASCII text
+def _ascii_drop(w):
+    return w.encode('ascii', 'ignore').decode()
+
+
+def _nf(form):
+    return lambda w: unicodedata.normalize(form, w)
+
+
+# (class, name, transform): every way the standard library turns a string into "the same" string
+_U_TRANSFORMS = [
+    ('case', 'lower', str.lower), ('case', 'upper', str.upper), ('case', 'casefold', str.casefold),
+    ('case', 'title', str.title), ('case', 'swapcase', str.swapcase), ('case', 'capitalize', str.capitalize),
+    ('norm', 'NFC', _nf('NFC')), ('norm', 'NFD', _nf('NFD')), ('norm', 'NFKC', _nf('NFKC')), ('norm', 'NFKD', _nf('NFKD')),
+    ('norm', 'NFKC_casefold', lambda w: unicodedata.normalize('NFKC', unicodedata.normalize('NFKC', w).casefold())),
+    ('drop', 'NFKD_drop', lambda w: _ascii_drop(unicodedata.normalize('NFKD', w))),
+    ('drop', 'lower_drop', lambda w: _ascii_drop(w.lower())), ('drop', 'upper_drop', lambda w: _ascii_drop(w.upper())),
+]
+_PRINTABLE = frozenset(chr(i) for i in range(33, 127))
+_UTAB = None
+
+
+def _is_plain(s):
+    """Only US-ASCII 33..126 (the superset of all encoding alphabets)."""
+    return all(c in _PRINTABLE for c in s)
+
+
+def _utables():
+    """{'all': {w: [u..]}, 'case': {w: [u..]}, 'n': code points in the table}: w = lower-cased ASCII text of 1-3
+    characters, u = a non-ASCII character that a transform maps onto w (in some case)."""
+    global _UTAB
+    if _UTAB is not None:
+        return _UTAB
+    al, ca = {}, {}
+
+    def add(tab, w, u):
+        if 1 <= len(w) <= 3 and _is_plain(w):
+            tab.setdefault(w.lower(), set()).add(u)
+    for cp in range(128, 0x110000):
+        if 0xD800 <= cp < 0xE000:
+            continue
+        u = chr(cp)
+        dec = unicodedata.decimal(u, None)
+        if dec is None:
+            dec = unicodedata.digit(u, None)
+        if dec is not None:
+            add(al, str(dec), u)
+        if not (unicodedata.decomposition(u) or u.lower() != u or u.upper() != u or u.casefold() != u):
+            continue        # no transform of the list changes u
+        for cl, _name, f in _U_TRANSFORMS:
+            w = f(u)
+            if w != u:
+                add(al, w, u)
+                if cl == 'case':
+                    add(ca, w, u)
+    for c in _PRINTABLE:       # low-bits class: one representative per width
+        for u in (chr(ord(c) | 0x80), chr(ord(c) + 0x100), chr(ord(c) + 0x10000)):
+            add(al, c, u)
+    _UTAB = {'all': {w: sorted(v) for w, v in al.items()}, 'case': {w: sorted(v) for w, v in ca.items()},
+             'n': len(set(u for v in al.values() for u in v))}
+    return _UTAB
+
+
+# inserted characters: everything str.strip() removes, all C0 controls and DEL, and a fixed list of invisible,
+# combining and replacement characters (soft hyphen, zero-width, directional marks, BOM, variation selectors ..)
+U_INS = ''.join(sorted(set(
+    [chr(i) for i in range(0x110000) if chr(i).isspace() and chr(i) != ' '] + [chr(i) for i in range(32)] +
+    list('\x7f\x80\x9f\xad\u0300\u0301\u0308\u034f\u061c\u180e\u200b\u200c\u200d\u200e\u200f\u202a\u202e\u2060'
+         '\u2066\u20e3\ufe00\ufe0f\ufeff\ufffd\uffff\U000e0001\U000e0100\U0010ffff'))))
+
+
+def _explain_non_ascii(m, accepts):
+    """Which reading of a string with characters outside 33..126 turns it into a string accepts() is true for."""
+    def bits(k):
+        return ''.join(chr(ord(c) & k) for c in m)
+
+    def digits():
+        return ''.join(str(unicodedata.digit(c, c)) if not _is_plain(c) else c for c in m)
+    forms = [('non_ascii_case_mapped', [f(m) for cl, _n, f in _U_TRANSFORMS if cl == 'case']),
+             ('surrounding_whitespace_stripped', [m.strip()]),
+             ('non_ascii_normalised', [f(m) for cl, _n, f in _U_TRANSFORMS if cl == 'norm']),
+             ('non_ascii_digit_value', [digits()]),
+             ('non_ascii_low_bits', [bits(0x7f), bits(0xff), bits(0xffff)]),
+             ('character_dropped', [f(m) for cl, _n, f in _U_TRANSFORMS if cl == 'drop'] +
+              [''.join(c for c in m if c in _PRINTABLE)])]
+    for name, cands in forms:
+        if name == 'non_ascii_case_mapped':     # the other single-case form of a case-mapped string is the same text
+            cands = [x for c in cands for x in (c, c.lower(), c.upper())]
+        for c in cands:
+            if c != m and _is_plain(c) and accepts(c):
+                return name
+    return None
+
 
 P2PKH, P2SH, HRPS, WIFV = {}, {}, {}, {}
 for _n in nets.NAMES:
@@ -78,6 +192,27 @@ def selftest():
             assert bip38.decrypt(e, PW) == (12345, comp)
             assert bip38.decrypt(e, PW + 'x') is None
     assert _lenient('1O2I') == '1o2i'
+    # Unicode table against facts published in UnicodeData.txt / SpecialCasing.txt / CaseFolding.txt
+    t = _utables()
+    assert '\u212a' in t['case']['k'] and '\u212a' in t['all']['k']       # KELVIN SIGN, lower case is U+006B
+    assert '\u017f' in t['case']['s'] and '\u0131' in t['case']['i']       # LONG S -> S, DOTLESS I -> I
+    assert '\u00df' in t['case']['ss'] and '\ufb01' in t['all']['fi']      # SHARP S -> SS, LIGATURE FI
+    assert '\uff21' in t['all']['a'] and '\uff21' not in t['case'].get('a', ())    # FULLWIDTH A: compatibility only
+    assert '\u0661' in t['all']['1'] and '\U0001d7d9' in t['all']['1']     # ARABIC-INDIC ONE, MATH DOUBLE-STRUCK ONE
+    assert '\u00e9' in t['all']['e'] and '\u0130' in t['all']['i']         # E ACUTE, I WITH DOT ABOVE (dropped marks)
+    assert '\u00e1' in t['all']['a'] and chr(ord('a') + 0x100) in t['all']['a']
+    assert all(not _is_plain(u) for v in t['all'].values() for u in v) and t['n'] > 2000
+    assert '\u00a0' in U_INS and '\n' in U_INS and '\ufeff' in U_INS and ' ' not in U_INS
+    assert _explain_non_ascii('AB\u212a', lambda c: c == 'abk') == 'non_ascii_case_mapped'
+    assert _explain_non_ascii('\u2003abk\n', lambda c: c == 'abk') == 'surrounding_whitespace_stripped'
+    assert _explain_non_ascii('a\uff22k', lambda c: c == 'aBk') == 'non_ascii_normalised'
+    assert _explain_non_ascii('a\u0662k', lambda c: c == 'a2k') == 'non_ascii_digit_value'
+    assert _explain_non_ascii('a\u0162k', lambda c: c == 'abk') == 'non_ascii_low_bits'
+    assert _explain_non_ascii('a\u200bbk', lambda c: c == 'abk') == 'character_dropped'
+    assert _explain_non_ascii('a\u200bbk', lambda c: False) is None
+    # the reference decoders refuse every string with a character outside their alphabet
+    for u in ('\u212a', '\u00e9', '\uff11', '\u00a0'):
+        assert codec.b58decode('1' + u) is None and codec.bech32_decode('A1' + u + 'QQQQQQ') is None
 
 
 # ----------------------------------------------------------------------------- KDF seam
@@ -300,7 +435,8 @@ def sites_b38(pw, net, ver):
     def key(s):
         k = Key(s, password=pw, network=net)
         re = None
-        if codec.b58decode(_lenient(s))[1:2] == b'\x42':
+        raw = codec.b58decode(_lenient(s))      # None for a symbol outside the alphabet: still an acceptance
+        if raw is not None and raw[1:2] == b'\x42':
             re = _call(lambda: k.encrypt(pw))[0]
         return {'sec': k.secret, 'comp': k.compressed, 're': re}
 
@@ -504,7 +640,8 @@ def base_string(d):
     if t == 'b58a':
         return codec.b58check_encode(bytes.fromhex(d['ver']) + bytes.fromhex(d['pl']))
     if t == 'seg':
-        return codec.segwit_encode(d['hrp'], d['v'], bytes.fromhex(d['pl']))
+        s = codec.segwit_encode(d['hrp'], d['v'], bytes.fromhex(d['pl']))
+        return s.upper() if d.get('up') else s      # BIP173: the all-upper-case form is the same address
     if t == 'wif':
         return codec.b58check_encode(bytes.fromhex(d['ver']) + bytes.fromhex(d['sec']) + (b'\1' if d['comp'] else b''))
     if t == 'xk':
@@ -629,6 +766,21 @@ def mutants(d, s, kind, lo, hi):
             out.append((i, s[:i] + s[i + 1] + s[i] + s[i + 2:]))
     elif kind == 'misc':
         out = misc_mutants(d, s)[lo:hi]
+    elif kind in ('ucase', 'uall'):
+        tab = _utables()[kind[1:]]
+        for i in range(lo, min(hi, len(s))):
+            for ln in (1, 2, 3):
+                w = s[i:i + ln]
+                if len(w) == ln:
+                    for u in tab.get(w.lower(), ()):
+                        out.append((i, s[:i] + u + s[i + ln:]))
+    elif kind == 'uins':
+        for i in range(lo, min(hi, len(s) + 1)):
+            for u in U_INS:
+                out.append((i, s[:i] + u + s[i:]))
+    elif kind == 'uends':
+        out = [(0, u + s) for u in U_INS] + [(len(s), s + u) for u in U_INS] + \
+            [(len(s) + 1, u + s + v) for u, v in ((' ', ' '), ('\t', '\n'), ('\u00a0', '\u00a0'), ('\ufeff', '\n'))]
     elif kind == 'base':
         out = [('base', s)]
     else:
@@ -655,6 +807,7 @@ def _sub_edit(case, d, t):
     bid = hashlib.sha256(s0.encode()).hexdigest()[:10]
     hint = d.get('net')
     unhinted = []
+    ver = None
     if t == 'b58a':
         sites = sites_b58a()
     elif t == 'seg':
@@ -677,32 +830,20 @@ def _sub_edit(case, d, t):
         done.add(m)
         if m != s0:
             nt.add('%s:%s:%s' % (bid, case['kind'], pos))
-        if t == 'b58a':
-            status, exp = ref_addr(m)
-        elif t == 'seg':
-            status, exp = ref_seg(m)
-        elif t == 'wif':
-            status, exp = ref_wif(m)
-        elif t == 'xk':
-            status, exp = ref_xk(m)
-        else:
-            status, exp = ref_b38(m, d['pw'], ver)
+        status, exp = _ref(t, m, d, ver)
         run_sites = [(x, True) for x in sites]
         if status == 'valid' and unhinted:
             run_sites += [(x, False) for x in unhinted]
         for (site, mode, f), hinted in run_sites:
             got, exc = _call(lambda: f(m))
             n += 1
-            if t == 'b58a':
-                out, cls = judge_addr(site, mode, status, exp, got, m)
-            elif t == 'seg':
-                out, cls = judge_seg(site, mode, status, exp, got, m)
-            elif t == 'wif':
-                out, cls = judge_wif(site, mode, status, exp, got, m, hinted)
-            elif t == 'xk':
-                out, cls = judge_xk(site, mode, status, exp, got, m)
-            else:
-                out, cls = judge_b38(site, mode, status, exp, got, m, d['pw'], ver)
+            out, cls = _judge(t, site, mode, status, exp, got, m, hinted, d, ver)
+            if cls == 'invalid_accepted|unexplained' and not _is_plain(m):
+                # a character outside US-ASCII 33..126 was accepted: which reading of it gives this result
+                def accepts(c):
+                    st2, e2 = _ref(t, c, d, ver)
+                    return st2 == 'valid' and _judge(t, site, mode, st2, e2, got, c, hinted, d, ver)[0] == 'valid_accepted'
+                cls = 'invalid_accepted|' + (_explain_non_ascii(m, accepts) or 'unexplained')
             if not hinted:
                 site += '[no network hint]'
                 if cls == 'valid_rejected' and len(set(c if isinstance(c, str) else c[0] for c in exp['cands'])) > 1 \
@@ -718,6 +859,31 @@ def _sub_edit(case, d, t):
                                                         'reference': status, 'expected': _short(exp),
                                                         'library': _short(got) if got is not None else exc}})
     return {'devs': devs, 'n': n, 'nt': sorted(nt), 'out': outs}
+
+
+def _ref(t, m, d, ver):
+    """Reference verdict on the string m read as an encoding of type t."""
+    if t == 'b58a':
+        return ref_addr(m)
+    if t == 'seg':
+        return ref_seg(m)
+    if t == 'wif':
+        return ref_wif(m)
+    if t == 'xk':
+        return ref_xk(m)
+    return ref_b38(m, d['pw'], ver)
+
+
+def _judge(t, site, mode, status, exp, got, m, hinted, d, ver):
+    if t == 'b58a':
+        return judge_addr(site, mode, status, exp, got, m)
+    if t == 'seg':
+        return judge_seg(site, mode, status, exp, got, m)
+    if t == 'wif':
+        return judge_wif(site, mode, status, exp, got, m, hinted)
+    if t == 'xk':
+        return judge_xk(site, mode, status, exp, got, m)
+    return judge_b38(site, mode, status, exp, got, m, d['pw'], ver)
 
 
 def _short(x):
@@ -766,7 +932,7 @@ def worker_init():
 
 
 SUBS = {'b58addr': sub_edit, 'bech32': sub_edit, 'wif': sub_edit, 'xkey': sub_edit, 'bip38': sub_edit,
-        'bip38_real': sub_edit, 'versions': sub_versions}
+        'bip38_real': sub_edit, 'versions': sub_versions, 'unicode': sub_edit}
 
 
 # ----------------------------------------------------------------------------- enumeration
@@ -781,6 +947,14 @@ def _cases(d, kinds, per_case):
         elif kind in ('del', 'swap'):
             step = per_case
             top = len(s)
+        elif kind in ('ucase', 'uall'):     # about 5 (case mappings) / 100 (all transforms) characters per position
+            step = max(1, per_case // (100 if kind == 'uall' else 5))
+            top = len(s)
+        elif kind == 'uins':
+            step = max(1, per_case // len(U_INS))
+            top = len(s) + 1
+        elif kind == 'uends':
+            step = top = 1
         else:
             step = per_case
             top = len(misc_mutants(d, s))
@@ -791,12 +965,17 @@ def _cases(d, kinds, per_case):
 
 FULL = ('misc', 'del', 'swap', 'sub', 'ins')
 LIGHT = ('misc', 'del', 'swap')
+UPPER = ('del', 'swap', 'sub', 'ins')      # upper-case Bech32 form: the structured damages are built from the payload
+UFULL = ('uall', 'uins')                    # every Unicode equivalent at every position, every insertion at every gap
+ULIGHT = ('ucase', 'uends')                 # the case-mapping equivalents only; insertions at head and tail only
 
 
 def _note(bases, **kw):
     kw.update({'base_strings': len(bases),
                'complete_neighbourhood(sub,ins,del,swap,misc)': sum(1 for _, k in bases if k is FULL),
                'light_neighbourhood(del,swap,misc)': sum(1 for _, k in bases if k is LIGHT)})
+    if any(k is UPPER for _, k in bases):
+        kw['upper_case_form(sub,ins,del,swap)'] = sum(1 for _, k in bases if k is UPPER)
     return kw
 
 
@@ -835,12 +1014,19 @@ def run(ctx):
             cs += _cases(d, kinds, 600)
         ctx.pmap('b58addr', cs, chunk=1)
     notes['b58addr'] = _note(bases, versions=[v.hex() for v in vers])
+    ubases = []      # (descriptor, UFULL | ULIGHT, evaluations per case) of the unicode sub-space
+    ufull = {('00', 0), ('05', 0)}
+    for i, (d, kinds) in enumerate(bases):
+        first = [b[0]['ver'] for b in bases].index(d['ver'])
+        ubases.append((d, UFULL if (not q or (d['ver'], i - first) in ufull) else ULIGHT, 1500))
 
     # ------------------------------------------------------------------ Bech32 / Bech32m
     hrps = sorted(HRPS)
     sp = _seeded(seed, 'seg', 40).hex()
+    # seed-independent program whose 32 five-bit groups are 0..31: its data part contains every Bech32 symbol
+    pan = bytes(codec.convertbits(list(range(32)), 5, 8, False)).hex() + '00' * 20
     forms_main = [(0, 20, sp), (0, 32, sp), (1, 32, sp), (0, 20, '00' * 40), (0, 20, 'ff' * 40), (2, 20, sp),
-                  (16, 2, sp), (16, 40, sp), (3, 33, sp), (1, 20, sp)]
+                  (16, 2, sp), (16, 40, sp), (3, 33, sp), (1, 20, sp), (0, 20, pan)]
     if not q:
         forms_main += [(v, 32, sp) for v in range(2, 17)] + [(0, 32, '00' * 40), (1, 32, 'ff' * 40), (5, 7, sp)]
     qfull = {('bc', 0, 20, sp), ('bc', 0, 32, sp), ('bc', 1, 32, sp), ('bc', 16, 40, sp), ('tb', 0, 20, sp),
@@ -853,12 +1039,29 @@ def run(ctx):
         for v, ln, pp in forms:
             bases.append(({'t': 'seg', 'hrp': h, 'v': v, 'pl': pp[:2 * ln]},
                           FULL if (not q or (h, v, ln, pp) in qfull) else LIGHT))
+    # the all-upper-case form (BIP173) of the same addresses gets its own neighbourhood: a decoder works on a
+    # case-folded copy, so damage of an upper-case string takes another route than damage of a lower-case one
+    qupper = {('bc', 0, sp[:40]), ('bc', 1, sp[:64])}
+    lower_bases = list(bases)
+    for d, kinds in lower_bases:
+        if not q or (d['hrp'], d['v'], d['pl']) in qupper:
+            bases.append((dict(d, up=True), UPPER))
     if want('bech32'):
         cs = []
         for d, kinds in bases:
             cs += _cases(d, kinds, 600)
         ctx.pmap('bech32', cs, chunk=1)
     notes['bech32'] = _note(bases, hrps=hrps)
+    ufull = {('bc', 0, 20, sp[:40], False), ('bc', 0, 20, pan[:40], True), ('bc', 1, 32, sp[:64], True),
+             ('tb', 0, 32, sp[:64], True), ('ltc', 1, 32, sp[:64], False)}
+    for d, kinds in lower_bases:
+        if d['pl'] in ('00' * 20, 'ff' * 20):
+            continue        # these payloads add no new characters
+        # thorough: everything for bc and tb, the three standard forms for the other prefixes
+        deep = not q and (d['hrp'] in ('bc', 'tb') or (d['v'], len(d['pl']) // 2) in ((0, 20), (0, 32), (1, 32)))
+        for up in (False, True):
+            ubases.append((dict(d, up=True) if up else d,
+                           UFULL if (deep or (d['hrp'], d['v'], len(d['pl']) // 2, d['pl'], up) in ufull) else ULIGHT, 1500))
 
     # ------------------------------------------------------------------ WIF
     def sec_ok(b):
@@ -886,6 +1089,8 @@ def run(ctx):
             cs += _cases(d, kinds, 250)
         ctx.pmap('wif', cs, chunk=1)
     notes['wif'] = _note(bases, versions=[v.hex() for v in wvers])
+    for d, kinds in bases:
+        ubases.append((d, UFULL if (not q or (d['ver'], d['comp'], d['sec']) == ('80', True, extra[1])) else ULIGHT, 600))
 
     # ------------------------------------------------------------------ extended keys
     xseed = _seeded(seed, 'xk', 32).hex()
@@ -914,6 +1119,8 @@ def run(ctx):
             cs += _cases(d, kinds, 130)
         ctx.pmap('xkey', cs, chunk=1)
     notes['xkey'] = _note(bases, prefixes=len(prefixes))
+    for d, kinds in bases:
+        ubases.append((d, UFULL if (not q or (d['ver'] == '0488ade4' and d['path'])) else ULIGHT, 400))
 
     # ------------------------------------------------------------------ BIP38 (substituted KDF)
     bsec = sec_ok(_seeded(seed, 'b38', 32))
@@ -934,6 +1141,26 @@ def run(ctx):
             cs += _cases(d, kinds, 130 if d['mode'] == 'plain' else 60)
         ctx.pmap('bip38', cs, chunk=1)
     notes['bip38'] = _note(b38, kdf='substituted')
+    for i, (d, kinds) in enumerate(b38):
+        ubases.append((d, UFULL if (not q or i == 0) else ULIGHT, 400))
+
+    # ------------------------------------------------------------------ characters outside US-ASCII
+    if want('unicode'):
+        cs = []
+        for d, kinds, per_case in ubases:
+            cs += _cases(d, kinds, per_case)
+        ctx.pmap('unicode', cs, chunk=1)
+    tab = _utables()
+    notes['unicode'] = {
+        'unicode_database': unicodedata.unidata_version, 'code_points_with_an_ascii_reading': tab['n'],
+        'ascii_texts_with_equivalents': len(tab['all']), 'of_these_by_case_mapping': len(tab['case']),
+        'equivalents_per_alphanumeric(min,max)': [min(len(tab['all'][c]) for c in B58.lower()),
+                                                  max(len(tab['all'][c]) for c in B58.lower())],
+        'inserted_characters': len(U_INS), 'base_strings': len(ubases),
+        'bech32_upper_case_forms': sum(1 for d, _, _ in ubases if d.get('up')),
+        'all_equivalents_every_gap(uall,uins)': sum(1 for _, k, _ in ubases if k is UFULL),
+        'case_mappings_head_tail(ucase,uends)': sum(1 for _, k, _ in ubases if k is ULIGHT),
+        'by_type': {t: sum(1 for d, _, _ in ubases if d['t'] == t) for t in ('b58a', 'seg', 'wif', 'xk', 'b38')}}
 
     # ------------------------------------------------------------------ BIP38 with the real scrypt
     if want('bip38_real'):
